@@ -273,7 +273,7 @@ def dateadd_date_cast(expression: exp.Expression) -> exp.Expression:
     if not isinstance(expression.unit.this, str):
         return expression
 
-    if (unit := expression.unit.this.upper()) and unit.upper() not in {"DAY", "WEEK", "MONTH", "YEAR"}:
+    if (unit := expression.unit.this.upper()) and unit.upper() not in {"DAY", "WEEK", "MONTH", "QUARTER", "YEAR"}:
         return expression
 
     if not isinstance(expression.this, exp.Cast):
